@@ -59,7 +59,12 @@ from mc.evidence import Run, digest
 from mc.harness import Entity, Event, Instant, Simulation, pmap, rotate
 from props.c01 import BEH_FULL, BEH_SMALL, KINDS, Ctx, Scripted, programs
 
+import random as _random
+
+import numpy as _np
+
 from happysimulator.components.common import Sink
+from happysimulator.components.random_router import RandomRouter
 from happysimulator.components.server.server import Server
 from happysimulator.core.control.breakpoints import (
     ConditionBreakpoint,
@@ -71,6 +76,7 @@ from happysimulator.core.control.breakpoints import (
 from happysimulator.core.event import disable_event_tracing, enable_event_tracing
 from happysimulator.core.sim_future import SimFuture, any_of
 from happysimulator.distributions.constant import ConstantLatency
+from happysimulator.distributions.exponential import ExponentialLatency
 from happysimulator.instrumentation.recorder import InMemoryTraceRecorder
 from happysimulator.load.event_provider import EventProvider
 from happysimulator.load.source import Source
@@ -236,6 +242,10 @@ class ProgWorld:
         del c.clock_obs[:]
         del c.toggles[:]
         c.procs.clear()
+        for extra in ("proc_due", "futs", "bad_values"):
+            x = getattr(c, extra, None)
+            if x is not None:
+                x.clear()
         c.calls = 0
         for e in c.ents:
             e.handled = 0
@@ -351,6 +361,69 @@ class PipeWorld:
 
     def reset_epoch(self):  # pragma: no cover - pipeline entities are stateful, Z never offered
         raise AssertionError("reset is not explored on stateful models")
+
+
+# ---------------------------------------------------------------------------
+# model 2b: stochastic pipeline driven by the process-wide RNG streams
+#   Source.poisson (numpy's global RNG) -> RandomRouter (random.randint) -> two Servers with
+#   ExponentialLatency service (random.expovariate) -> Sink.  Both streams are seeded by the harness
+#   immediately before the model is built, so every draw a control call, hook registration or
+#   breakpoint insertion would take from them shifts the rest of the run.
+# ---------------------------------------------------------------------------
+class RandModel:
+    family = "rand"
+    tick = 125_000_000
+    cond_target = "Sink"
+    metric_bp = ("Sink", "events_received", "ge", 2)
+    stateless = False
+    precancelled = False
+    heap_exact = True
+    params = {"A": {"H": 3, "BT": 500_000_000, "BC": 7, "BE": "Request", "I": 0},
+              "B": {"H": 1, "BT": 1_000_000_000, "BC": 12, "BE": "QUEUE_POLL", "I": 1}}
+
+    def __init__(self, seed, rate, mean_svc, end_s):
+        self.variant = (seed, rate, mean_svc, end_s)
+        self.key = ("rand", seed, rate, mean_svc, end_s)
+        self.spec = self.key
+
+    def build(self, recorder=None):
+        return RandWorld(self, recorder)
+
+
+class RandWorld(PipeWorld):
+    def __init__(self, model, recorder):  # noqa: D401 - same observation surface as PipeWorld
+        self.model = model
+        seed, rate, mean_svc, end_s = model.variant
+        _random.seed(seed)          # the environment's RNG answers are owned: seeded right before the build
+        _np.random.seed(seed)
+        self.log = []
+        self.calls = 0
+        self.recorder = recorder
+        self.sink = LogSink("Sink", self)
+        self.srvs = [LogServer(f"Srv{i}", self, concurrency=1, service_time=ExponentialLatency(mean_svc),
+                               downstream=self.sink) for i in range(2)]
+        self.srv = self.srvs[0]
+        self.router = RandomRouter("Router", targets=self.srvs)
+        self.src = Source.poisson(rate=rate, name="Src", event_provider=LogProvider(self, self.router))
+        kw = {}
+        if recorder is not None:
+            kw["trace_recorder"] = recorder
+        self.sim = Simulation(end_time=Instant.from_seconds(end_s), sources=[self.src],
+                              entities=[self.router, *self.srvs, self.sink], **kw)
+        self.start_ns = 0
+        self.tick = model.tick
+
+    def obs(self):
+        sts = tuple((s.stats.requests_completed, s.stats.requests_rejected, s.stats.total_service_time,
+                     s.active_requests) for s in self.srvs)
+        return (tuple(self.log), self.sink.events_received,
+                tuple(t.nanoseconds for t in self.sink.completion_times), tuple(self.sink.latencies_s),
+                sts, self.src.generated_count, self.router.stats_routed,
+                tuple(sorted(self.router.target_counts.items())))
+
+    def inject(self, t_ns, idx, d):
+        return Event(time=Instant(t_ns), event_type="Request", target=self.router,
+                     context={"metadata": {"request_id": 900 + idx}})
 
 
 # ---------------------------------------------------------------------------
@@ -511,6 +584,8 @@ def make_model(spec):
         return PipeModel(spec[1], spec[2], spec[3])
     if spec[0] == "genfut":
         return GenFutModel(_thaw(spec[1]), spec[2])
+    if spec[0] == "rand":
+        return RandModel(spec[1], spec[2], spec[3], spec[4])
     raise AssertionError(spec)
 
 
@@ -1371,6 +1446,7 @@ DEEP_PROGRAMS = [
 ]
 
 PIPES = [("pipe", 4, 0.375, 1.25), ("pipe", 4, 0.125, 1.0)]
+RANDS = [("rand", 20240611, 8, 0.125, 1.5), ("rand", 7, 6, 0.25, 1.25)]
 GENFUTS = [
     ("genfut", ((0, 1, 1, 2, 2), (1, 0, 2, 1, 2)), None),
     ("genfut", ((0, 0, 2, 3, 2), (0, 1, 1, 1, 1)), 6),
@@ -1381,7 +1457,7 @@ GENFUTS = [
 def _warm():
     """Run one tiny execution of every family in the parent so that the library's lazy
     imports are paid once, before the worker pool forks."""
-    for spec in (("prog", DEEP_PROGRAMS[0], 2), PIPES[0], GENFUTS[2]):
+    for spec in (("prog", DEEP_PROGRAMS[0], 2), PIPES[0], GENFUTS[2], RANDS[0]):
         m = make_model(spec)
         c = Cache()
         judge_modes(m, c)
@@ -1402,7 +1478,7 @@ def plans(tier):
         p2 = prog_specs(2, BEH_FULL, (0, 1, 2), False, (None, 2))
         p2s = prog_specs(2, BEH_SMALL, (1, 2), True, (None, 2))
         p3s = prog_specs(3, BEH_SMALL, (1, 2), False, (2,))
-    lib = PIPES + GENFUTS
+    lib = PIPES + GENFUTS + RANDS
     st1 = [s for s in p1b if make_model(s).stateless or make_model(s).precancelled]
     st2 = [s for s in p2s1 if make_model(s).stateless]
     stdeep = [("prog", p, e) for p in STATELESS_DEEP for e in (None, 2)]
@@ -1414,7 +1490,9 @@ def plans(tier):
                  f"2 events ({len(BEH_FULL)} behaviours) x end{{None,2}}; 3 events ({len(BEH_SMALL)} behaviours) x end 2")
               + "; 6 hand-picked 3-event programs"))
     P.append(("modes-library", "modes", lib, None, None, None, False,
-              "2 pipelines Source.constant->Server->Sink (explicit end), 3 generator/SimFuture models"))
+              "2 pipelines Source.constant->Server->Sink (explicit end), 3 generator/SimFuture models, 2 stochastic "
+              "pipelines Source.poisson->RandomRouter->2 Servers(ExponentialLatency)->Sink on the seeded global "
+              "random / numpy streams"))
     # ---- wide: many programs, short scripts
     if q:
         P.append(("scripts-programs-wide", "scripts", p1b, ["control"], "A", 2, False,
@@ -1434,7 +1512,8 @@ def plans(tier):
     P.append(("scripts-stepper", "stepper", p1b + (p2s1 if q else p2) + deep, ["control"], None, None, False,
               f"every 1-event program, every 2-event program ({len(BEH_SMALL) if q else len(BEH_FULL)}-behaviour alphabet) x end{{None,2}}, "
               "6 hand-picked programs"))
-    P.append(("scripts-stepper", "stepper", lib, ["control", "all"], None, None, False, "2 pipelines, 3 generator/future models"))
+    P.append(("scripts-stepper", "stepper", lib, ["control", "all"], None, None, False,
+              "2 pipelines, 3 generator/future models, 2 stochastic pipelines"))
     # ---- deep: full script trees on hand-picked programs
     if q:
         P.append(("scripts-programs-deep", "scripts", deep_alt[:3], ["control"], "A", 4, True,
@@ -1475,9 +1554,18 @@ def plans(tier):
         P.append(("scripts-genfut", "scripts", GENFUTS, ["all"], "A", 4, True, "all 3 models, all observers: <= 4"))
         P.append(("scripts-genfut6", "scripts", GENFUTS[2:], ["control"], "A", 6, True,
                   "single client (12 deliveries): ALL scripts <= 6 over the 12-symbol alphabet"))
+    # ---- stochastic pipeline on the process-wide RNG streams: registrations must not consume draws
+    if q:
+        P.append(("scripts-random", "scripts", RANDS[:1], ["control"], "A", 3, True,
+                  "Source.poisson(8/s)->RandomRouter->2 Servers(Exp 0.125s)->Sink, end 1.5s, random+numpy seeded: ALL scripts <= 3, set A"))
+        P.append(("scripts-random", "scripts", RANDS[1:], ["all"], "B", 2, True, "second seed/rate, all observers: <= 2, set B"))
+    else:
+        P.append(("scripts-random", "scripts", RANDS[:1], ["control"], "A", 4, True,
+                  "Source.poisson(8/s)->RandomRouter->2 Servers(Exp 0.125s)->Sink, end 1.5s, random+numpy seeded: ALL scripts <= 4, set A"))
+        P.append(("scripts-random", "scripts", RANDS, ["all"], "B", 3, True, "both stochastic pipelines, all observers: <= 3, set B"))
     # ---- every observation mode under pausing
     P.append(("scripts-modes", "scripts", deep_alt[:4] + lib, SCRIPT_MODES, "A", 2 if q else 3, True,
-              "4 programs, 2 pipelines, 3 generator models x each of 6 observer combinations"))
+              "4 programs, 2 pipelines, 3 generator models, 2 stochastic pipelines x each of 6 observer combinations"))
     # ---- reset()
     P.append(("reset-programs", "scripts", st1, ["control"], "rst", 2 if q else 3, False,
               "stateless 1-event programs (nop/emit/gen/genside/past; plain/daemon/pre-cancelled): scripts over "
